@@ -200,6 +200,9 @@ class Gen:
                 ih, iw = oh, ow
         ifm = self.chain_ifm((ih, iw, ic), dtype) or self.fm((ih, iw, ic), dtype, name="ifm")
         odtype = dtype if not (kind == "pool" and sub == "REDUCE_SUM") else str(r.choice([dtype, "INT32"]))
+        if kind in ("conv", "depthwise") and dtype in ("INT8", "UINT8", "INT16") and r.integers(0, 6) == 0:
+            # requantising operation: OFM of another width / signedness than the IFM
+            odtype = str(r.choice([d for d in ("INT8", "UINT8", "INT16") if d != dtype]))
         ofm = self.fm((oh, ow, oc), odtype, region=int(r.choice([1, 1, 2])), name="ofm")
         if kind == "pool":
             # average / reduce-sum scaling is derived from both quantisations: they must be present
